@@ -118,6 +118,19 @@ def facts_at(f, R, nid):
                     if cn['k'] == 'IfStmt' and 'else' not in cn and always_exits(f, cn['then']):
                         atoms_of_cond(f, R, cn['cond'], False, out)
         child = p
+    # validator helpers called on a path that dominates nid: their conditions are false afterwards
+    try:
+        import validators
+        vgs = validators.virtual_guards(f.prog, f, R)
+    except Exception:
+        vgs = []
+    if vgs:
+        g = f.events()
+        uv = g.vertex_of.get(nid)
+        for vg in vgs:
+            cv = g.vertex_of.get(vg['call'])
+            if cv is not None and uv is not None and cv != uv and g.dominates(cv, uv) and vg['call'] not in f.descendants(nid):
+                out.extend(validators.after_return_atoms(f.prog, vg, uncast))
     return out
 
 
